@@ -80,19 +80,28 @@ package protocol
 //@   modifies nothing
 //@   ensures[C07] result == dupl(h, msg)
 
+// First message wins (C07): store never overwrites an occupied slot.
 //@ func (*MultiHandler).store
+//@   ensures[C07] (msg.Broadcast && old(h.broadcast[msg.RoundNumber]) != nil && old(h.broadcast[msg.RoundNumber][msg.From]) != nil) ==> h.broadcast[msg.RoundNumber][msg.From] == old(h.broadcast[msg.RoundNumber][msg.From])
+//@   ensures[C07] (!msg.Broadcast && old(h.messages[msg.RoundNumber]) != nil && old(h.messages[msg.RoundNumber][msg.From]) != nil) ==> h.messages[msg.RoundNumber][msg.From] == old(h.messages[msg.RoundNumber][msg.From])
 //@   nopanic[C05,C17]
 //@   requires h != nil && excl(h.mtx) && msg != nil
 //@   modifies heap:MV_map_internal_round_Number_map_pkg_party_ID_ppkg_protocol_Message, heap:MD_map_pkg_party_ID_ppkg_protocol_Message, heap:MV_map_pkg_party_ID_ppkg_protocol_Message
 
 //@ func (*MultiHandler).verifyBroadcastMessage
+//@   assert_at[C07] StoreBroadcastMessage "StoreBroadcastMessage(roundMsg)": indom(h.rounds, msg.RoundNumber) && h.rounds[msg.RoundNumber] == r
 //@   nopanic[C05,C17]
 //@   requires h != nil && excl(h.mtx) && msg != nil && hshape(h)
 //@   unclaimed type-assert r.(round.BroadcastRound) -- needs the queue invariant "every message in h.broadcast[k] has Broadcast set" (nested-map quantifier, not discharged robustly); holds because store() files messages by their Broadcast flag and getRoundMessage rejects a broadcast message for a non-broadcast round
 //@   modifies shared
 //@   ensures hshape(h)
 
+// Dependency order (C07): a point-to-point message is verified and stored only for a round that has been
+// reached and, in a broadcast round, only once the sender's broadcast has been stored; and only after VerifyMessage accepted it.
 //@ func (*MultiHandler).verifyMessage
+//@   assert_at[C07] VerifyMessage "r.VerifyMessage(roundMsg)": indom(h.rounds, msg.RoundNumber) && h.rounds[msg.RoundNumber] == r
+//@   assert_at[C07] VerifyMessage "r.VerifyMessage(roundMsg)": implements(r, round.BroadcastRound) ==> (h.broadcast[msg.RoundNumber] != nil && h.broadcast[msg.RoundNumber][msg.From] != nil)
+//@   assert_at[C07,C03] StoreMessage "r.StoreMessage(roundMsg)": called(VerifyMessage)
 //@   nopanic[C05,C17]
 //@   requires h != nil && excl(h.mtx) && msg != nil && hshape(h)
 //@   modifies shared
@@ -261,7 +270,9 @@ package protocol
 //@   modifies nothing
 //@   ensures result == (m.From != id && (m.To == "" || m.To == id))
 
+// The message hash covers every header and the content (C06): two messages with equal hashes agree on all of them (A-HASH).
 //@ func (*Message).Hash
+//@   ensures[C06] bval(result) == hsum(hw(hw(hw(hw(hw(hw(hw(hw(h_init(), h_bwd("SSID", bval(m.SSID))), h_obj(iface(m.From))), h_obj(iface(m.To))), h_bwd("Protocol", strbval(m.Protocol))), h_obj(iface(m.RoundNumber))), h_bwd("Content", bval(m.Data))), h_bwd("Broadcast", byte1val(ite(m.Broadcast, 1, 0)))), h_bwd("BroadcastVerification", bval(m.BroadcastVerification))))
 //@   nopanic[C05]
 //@   requires m != nil
 //@   modifies nothing
